@@ -244,8 +244,7 @@ func checkC08(p *Prog, res *Result, tier string) {
 	checkRangeReadsGuarded(p, r, ck, res)
 	// ---- R5: engines evaluate conditions atomically (C11-R1/R2) ----
 	{
-		sub11 := newResult("C11")
-		checkC11(p, sub11, tier)
+		sub11 := p.subResult("C11", tier)
 		for _, o := range sub11.Obls {
 			if (o.Rule == "C11-R1" && (strings.Contains(o.Construct, "CAS") || strings.Contains(o.Construct, "PutIfNotExist"))) ||
 				(o.Rule == "C11-R2" && (strings.Contains(o.Construct, "Commit:") || strings.Contains(o.Construct, "memkv:"))) {
